@@ -155,6 +155,15 @@ class CFG:
     def in_loop(self, b):
         return self.path_exists(b, b)
 
+    def loop_header(self, b):
+        """header of the outermost loop containing block b (None when b is not in a loop)"""
+        if not self.in_loop(b):
+            return None
+        cands = [d for d in self.dom().get(b, ()) if self.path_exists(d, b) and self.path_exists(b, d)]
+        if not cands:
+            return None
+        return min(cands, key=lambda h: len(self.dom()[h]))
+
 
 # position helpers: a program point is (block, index) where index == len(stmts) means the terminator
 def before(cfg, p, q):
